@@ -131,6 +131,11 @@ func runCycleCase(seed int64, tag string, addr string, cycles int, serve bool, r
 		}
 		time.Sleep(50 * time.Millisecond)
 		runtime.GC()
+		if d := os.Getenv("C10_GDUMP"); d != "" && (cy == 3 || cy == 15) {
+			buf := make([]byte, 4<<20)
+			n := runtime.Stack(buf, true)
+			_ = os.WriteFile(fmt.Sprintf("%s/g_%s_%d.txt", d, tag, cy), buf[:n], 0o644)
+		}
 		out.goroutines = append(out.goroutines, runtime.NumGoroutine())
 		out.fds = append(out.fds, countFDs())
 	}
